@@ -126,13 +126,13 @@ def paths_over(comps, maxn):
 def score_universe(tier):
     comps = ["a", "b", "ab"] if tier == "quick" else ["a", "b", "ab", "ba"]
     targets = paths_over(comps, 3)
-    homes = [None] + paths_over(comps, 2 if tier == "quick" else 1) + (["a.b", "ab.a", "b.ab", "a.a"] if tier != "quick" else [])
+    homes = [None] + paths_over(comps, 2)
     subs = set()
     for t in targets:
         for i in range(len(t) + 1):
             for j in range(i, len(t) + 1):
                 subs.add(t[i:j])
-    maxlen = 5 if tier == "quick" else 6
+    maxlen = 6 if tier == "quick" else 7
     sources = sorted(s for s in subs if len(s) <= maxlen) + ["c", "a.c", "bb", "aa", "a..b", "..", "b.b.b.b"]
     return homes, sorted(set(sources)), targets
 
@@ -300,9 +300,11 @@ def arg_names(rng, targets, scopes):
                 s = t[i:j].strip(".")
                 if s and ".." not in s:
                     cand.add(s)
-    cand.update(["c", "a.c", "bb", "aa", "b.a.b.a"])
     cand.update(scopes)
     return sorted(cand)
+
+
+NON_MATCHING = ["c", "a.c", "bb", "aa", "b.a.b.a", "a.b.c"]
 
 
 class Decision(Stream):
@@ -359,8 +361,8 @@ class Decision(Stream):
         return out
 
     def cases(self, rng, tier):
-        nmasters = 330 if tier == "quick" else 5000
-        per = 26 if tier == "quick" else 40
+        nmasters = 500 if tier == "quick" else 5000
+        per = 30 if tier == "quick" else 40
         for i in range(nmasters):
             spec = gen_pathset(rng) if i % 2 else gen_objs(rng, 0, [rng.randint(2, 7)])
             m, targets, levels, _ = self.master(spec)
@@ -371,7 +373,7 @@ class Decision(Stream):
             names = arg_names(rng, targets, scopes)
             for _ in range(per):
                 h = rng.choice(homes)
-                n = rng.choice(names)
+                n = rng.choice(names) if rng.random() < 0.88 else rng.choice(NON_MATCHING)
                 v = rng.choice(VALUES)
                 r = rng.random()
                 if r < 0.70:
@@ -594,6 +596,7 @@ class ProcessArgs(Stream):
                 return ("phil", arg)
 
         self.Stub = Stub
+        self._canon = {}
         self.master = fp.parse(ARGS_MASTER)
 
     def corpus(self):
@@ -612,6 +615,16 @@ class ProcessArgs(Stream):
             fails = ["zz=1", "zz = True"] if rng.random() < 0.7 else rng.sample(["a=1", "a = True", "zz=1", "ab='x y'"], 2)
             yield {"args": args, "fails": fails, "collect": rng.random() < 0.5}
 
+    def canon_text(self, text):
+        """a text handed to process_arg, up to what the parser makes of it (so "x = True" and "x=True" agree)"""
+        if text not in self._canon:
+            try:
+                src = self.fp.parse(text)
+                self._canon[text] = [[l.path, [[w.value, qcode(w.quote_token)] for w in l.object.words]] for l in src.all_definitions()]
+            except Exception:  # noqa
+                self._canon[text] = ["raw", text]
+        return self._canon[text]
+
     def run_stub(self, args, fails, collect):
         ai = self.Stub(fails, master_phil=self.master)
         remaining = []
@@ -621,10 +634,10 @@ class ProcessArgs(Stream):
             return True
         try:
             r = ai.process_args(args, custom_processor=cp if collect else None)
-            out = ["ok", [x[1] for x in r], remaining]
+            out = ["ok", [self.canon_text(x[1]) for x in r], remaining]
         except (Exception, self.fp.Sorry) as e:  # noqa
             out = ["err", exc_class(e)]
-        return [ai.calls, out]
+        return [[self.canon_text(c) for c in ai.calls], out]
 
     def end_to_end(self, args, collect):
         """the property's last clause on the real thing"""
@@ -661,10 +674,9 @@ class ProcessArgs(Stream):
         args, fails, collect = case["args"], case["fails"], case["collect"]
         return [("args", [collect, [], fails, args])] + [("args", [collect, [], fails, [a]]) for a in args]
 
-    @staticmethod
-    def res_obs(r):
+    def res_obs(self, r):
         if r[0] == "ok":
-            return ["ok", r[1][0], r[1][1]]
+            return ["ok", [self.canon_text(x) for x in r[1][0]], r[1][1]]
         if r[0] == "uerr":
             return ["err", "Sorry"]
         return ["err", "other:" + r[1]]
@@ -678,7 +690,7 @@ class ProcessArgs(Stream):
         singles = []
         for r in replies[1:]:
             p = r[0][0]
-            singles.append([[p[1]] if p[0] in ("flag", "def") else [], self.res_obs(r[1])])
+            singles.append([[self.canon_text(p[1])] if p[0] in ("flag", "def") else [], self.res_obs(r[1])])
         return [singles, self.res_obs(replies[0][1]), o[2]]
 
     def prop(self, case, o):
@@ -735,7 +747,7 @@ SPEC = {
     "streams": [StrOps, Score, Decision, ProcessArgs],
     "rule": "strops: all pairs of strings of length <= 3 (quick) / <= 4 (thorough) over {a,b,.}; "
             "score: every (home, source, target) with target = path of <= 3 components from {a,b,ab} (thorough: +ba), home = none or a "
-            "path of <= 2 components, source = every substring of a target (length bound 5/6) plus non-substrings; "
+            "path of <= 2 components, source = every substring of a target (length bound 6/7) plus non-substrings; "
             "decision: seeded random masters (nested scopes and flat dotted path sets, names from {a,b,ab,ba}, disabled objects, "
             "expert levels on scopes and definitions, .multiple duplicates, include lines) x home scopes x argument names that are full "
             "paths, suffixes, interior substrings, scope paths or non-substrings x 14 value texts (quotes, blanks, '=', ';') in 7 argument "
